@@ -1037,7 +1037,8 @@ def check(env, wdir, scn, res, solo, refs, which):
         must_fail = list(failed)
         # objects and executables made by the real GNU tools embed the names of the temporaries they were
         # made from, so their bytes are compared only when the stub tools (content = hash of inputs) are used
-        byte_exact = scn["tools"] == "stub" or m["mode"] in ("E", "S")
+        # (build note: that was chibicc's own defect -- no STT_FILE symbol, repaired by 811d6c4 -- so the bytes are compared for real tools too)
+        byte_exact = True
         if m["refused"]:
             must_fail.append(("driver", "-o with several inputs and -c/-S/-E must be refused"))
         if inv["stdout"] == "devfull" and ((m["mode"] == "E" and not m["out"]) or (m["mode"] == "M" and not m["requested"])):
